@@ -1,6 +1,243 @@
-//! Harness for property C10 (stub: not built yet).
+//! Harness for property C10 — `anda_db_btree::BTreeIndex` equals an ordered multimap, across
+//! flush and crash (threads: see notes/C10.md, needs hooks).
+//!
+//! A case is a list of op lines (`new U OV` first). Every line is executed on the real index; its
+//! canonical answer is compared
+//!   (a) with an independent oracle (`BTreeMap<i64, BTreeSet<u64>>` + brute-force query semantics +
+//!       the snapshot-at-commit rule for loads)  -> `oracle_failure`
+//!   (b) with the Lean model behind `drv_c10`    -> `disagreement`.
+//! Flush-family ops run the real `flush_owned_with` into a recording in-memory object map and call
+//! the real `load_all` on *every prefix* of the recorded write sequence (bucket PUTs, metadata PUT,
+//! obsolete DELETEs); the decoded write sequence is what the model's `flw` line receives.
+
+mod ops;
+mod world;
+
+use ops::*;
+use std::collections::BTreeMap;
+use vh_common::serde_json::json;
+use vh_common::{Args, ModelProc, Report, Rng, read_corpus, read_replay, shrink};
+use world::*;
+
+#[derive(Clone, Debug)]
+pub enum Failure {
+    Oracle { key: String, what: String, expected: String, observed: String },
+    Disagree { what: String, model: String, implementation: String },
+}
+
+impl Failure {
+    fn same_kind(&self, other: &Failure) -> bool {
+        match (self, other) {
+            (Failure::Oracle { key: a, .. }, Failure::Oracle { key: b, .. }) => a == b,
+            (Failure::Disagree { what: a, .. }, Failure::Disagree { what: b, .. }) => a == b,
+            _ => false,
+        }
+    }
+}
+
+#[derive(Default)]
+pub struct CaseOut {
+    pub ops: Vec<String>,
+    pub failure: Option<(usize, Failure)>,
+    pub hits: BTreeMap<String, u64>,
+    pub mutated: bool,
+    pub answered: bool,
+    pub model_lines: u64,
+    pub prefixes_loaded: u64,
+}
+
+impl CaseOut {
+    fn hit(&mut self, k: &str) {
+        *self.hits.entry(k.to_string()).or_insert(0) += 1;
+    }
+}
+
+/// Executes one line on the world (+ model); records the first failure.
+fn exec_line(w: &mut Option<World>, line: &str, model: &mut Option<ModelProc>, out: &mut CaseOut, skip_oracle_deep: bool) {
+    let idx = out.ops.len();
+    out.ops.push(line.to_string());
+    let res = std::panic::catch_unwind(std::panic::AssertUnwindSafe(|| step(w, line)));
+    let steps = match res {
+        Ok(Ok(s)) => s,
+        Ok(Err(e)) => {
+            out.hit("bad_line");
+            eprintln!("bad op line {line:?}: {e}");
+            return;
+        }
+        Err(p) => {
+            let msg = p.downcast_ref::<String>().cloned().or_else(|| p.downcast_ref::<&str>().map(|s| s.to_string())).unwrap_or_default();
+            out.failure = Some((
+                idx,
+                Failure::Oracle { key: format!("panic:{}", line.split(' ').next().unwrap_or("")), what: format!("panic in the code under test: {msg}"), expected: "no panic".into(), observed: "panic".into() },
+            ));
+            return;
+        }
+    };
+    let _ = skip_oracle_deep;
+    for st in steps {
+        for h in &st.hits {
+            out.hit(h);
+        }
+        out.mutated |= st.mutated;
+        out.answered |= st.answered;
+        out.prefixes_loaded += st.prefixes_loaded;
+        if out.failure.is_some() {
+            // still feed the model so that it stays in step? no: stop at the first failure
+            return;
+        }
+        if let Some((key, what, expected, observed)) = st.oracle_violation {
+            out.failure = Some((idx, Failure::Oracle { key, what, expected, observed }));
+            return;
+        }
+        if let (Some(m), Some(ml)) = (model.as_mut(), st.model_line.as_ref()) {
+            let ans = m.ask(ml);
+            out.model_lines += 1;
+            if ans != st.impl_raw {
+                out.failure = Some((idx, Failure::Disagree { what: st.what.clone(), model: clip(&ans), implementation: clip(&st.impl_raw) }));
+                return;
+            }
+        }
+    }
+}
+
+fn clip(s: &str) -> String {
+    if s.len() > 1200 { format!("{}…[{} bytes]", &s[..1200], s.len()) } else { s.to_string() }
+}
+
+fn run_ops(ops: &[String], model: &mut Option<ModelProc>) -> CaseOut {
+    let mut out = CaseOut::default();
+    let mut w: Option<World> = None;
+    for l in ops {
+        exec_line(&mut w, l, model, &mut out, false);
+        if out.failure.is_some() {
+            break;
+        }
+    }
+    out
+}
+
+fn run_generated(seed: u64, case: u64, thorough: bool, model: &mut Option<ModelProc>) -> CaseOut {
+    let mut rng = Rng::for_case(seed, case);
+    let mut out = CaseOut::default();
+    let mut w: Option<World> = None;
+    let first = gen_new(&mut rng);
+    exec_line(&mut w, &first, model, &mut out, false);
+    let n = if thorough { 20 + rng.usize(120) } else { 10 + rng.usize(50) };
+    for _ in 0..n {
+        if out.failure.is_some() {
+            return out;
+        }
+        let line = gen_next(&mut rng, w.as_ref().unwrap());
+        exec_line(&mut w, &line, model, &mut out, false);
+    }
+    // checkpoint: every early-stop position in both directions for a few query trees, key paging,
+    // point lookups, statistics, final contents
+    if out.failure.is_none() {
+        for line in gen_checkpoint(&mut rng, w.as_ref().unwrap()) {
+            exec_line(&mut w, &line, model, &mut out, false);
+            if out.failure.is_some() {
+                break;
+            }
+        }
+    }
+    out
+}
+
+fn shrink_case(ops: Vec<String>, f: &Failure, model: &mut Option<ModelProc>) -> Vec<String> {
+    shrink(
+        ops,
+        |cand: &[String]| {
+            if cand.is_empty() || !cand[0].starts_with("new ") {
+                return false;
+            }
+            let o = run_ops(cand, model);
+            o.failure.as_ref().is_some_and(|(_, g)| g.same_kind(f))
+        },
+        400,
+    )
+}
+
+fn record(report: &mut Report, out: &CaseOut, model: &mut Option<ModelProc>, label: &str) {
+    for (k, v) in &out.hits {
+        report.hit_n(k, *v);
+    }
+    report.hit_n("prefix_loads", out.prefixes_loaded);
+    report.model_compared += out.model_lines;
+    let canon = out.ops.join("\n");
+    report.case(&canon, out.mutated && out.answered);
+    if let Some((at, f)) = &out.failure {
+        let upto: Vec<String> = out.ops[..=*at].to_vec();
+        let small = shrink_case(upto, f, model);
+        // re-run the shrunken case to report its own expected/observed
+        let again = run_ops(&small, model);
+        let f2 = again.failure.map(|x| x.1).unwrap_or_else(|| f.clone());
+        match f2 {
+            Failure::Oracle { key, what, expected, observed } => report.oracle_failure(&key, &format!("{what} [{label}]"), &small, &expected, &observed),
+            Failure::Disagree { what, model: m, implementation } => report.disagreement(&format!("{what} [{label}]"), &small, &m, &implementation),
+        }
+    }
+}
+
 fn main() {
-    let a = vh_common::Args::parse();
-    let r = vh_common::Report::new("C10", &a, "stub");
-    r.write(&a);
+    let args = Args::parse();
+    let mut report = Report::new(
+        "C10",
+        &args,
+        "a case (one op history incl. its flush/crash/reload points and the closing checkpoint) counts as non-trivial when at least one mutation changed the contents and at least one query/listing/load returned a non-empty answer",
+    );
+    // panics of the code under test are caught per line; keep the default hook quiet
+    std::panic::set_hook(Box::new(|_| {}));
+    let use_model = args.driver.is_some() && args.focus.is_none();
+    let mut model: Option<ModelProc> = if use_model { ModelProc::from_args(&args) } else { None };
+
+    if let Some(rp) = &args.replay {
+        let ops = read_replay(rp);
+        let out = run_ops(&ops, &mut model);
+        record(&mut report, &out, &mut model, "replay");
+        report.write(&args);
+        return;
+    }
+
+    if let Some(dir) = &args.corpus {
+        for (name, ops) in read_corpus(dir) {
+            let out = run_ops(&ops, &mut model);
+            report.hit("corpus_cases");
+            if report.samples.len() < 2 {
+                report.sample(json!({"corpus": name, "ops": ops.len()}));
+            }
+            record(&mut report, &out, &mut model, &format!("corpus {name}"));
+        }
+    }
+
+    let n_cases = args.budget(1200, 40000);
+    let threads = std::thread::available_parallelism().map(|n| n.get()).unwrap_or(4).min(16) as u64;
+    let thorough = args.thorough() || args.focus.is_some();
+    let outs: Vec<Vec<(u64, CaseOut)>> = std::thread::scope(|sc| {
+        let hs: Vec<_> = (0..threads)
+            .map(|t| {
+                let args = &args;
+                sc.spawn(move || {
+                    let mut model: Option<ModelProc> = if use_model { ModelProc::from_args(args) } else { None };
+                    let mut v = Vec::new();
+                    let mut i = t;
+                    while i < n_cases {
+                        v.push((i, run_generated(args.seed, i, thorough, &mut model)));
+                        i += threads;
+                    }
+                    v
+                })
+            })
+            .collect();
+        hs.into_iter().map(|h| h.join().expect("worker")).collect()
+    });
+    let mut all: Vec<(u64, CaseOut)> = outs.into_iter().flatten().collect();
+    all.sort_by_key(|x| x.0);
+    for (i, out) in &all {
+        if report.samples.len() < 6 && out.mutated && out.answered && i % 97 == 0 {
+            report.sample(json!({"seed": args.seed, "case": i, "ops": out.ops.iter().take(40).collect::<Vec<_>>()}));
+        }
+        record(&mut report, out, &mut model, &format!("seed {} case {}", args.seed, i));
+    }
+    report.notes.push("measured only: real threads / interleavings are not exercised (hooks H1/H2 absent); see notes/C10.md".into());
+    report.write(&args);
 }
